@@ -93,7 +93,7 @@ def case_elementary(case):
         s = mk_schedule(smaps, B)
         return replay_multiset(list(s), list(apply(s)))
 
-    return run_case(fn, replay, signature=lambda f, v: f"{op}:{f['name'].split(':')[-1]}",
+    return run_case(fn, replay, witness=True, signature=lambda f, v: f"{op}:{f['name'].split(':')[-1]}",
                     sample=dict(family=name, op=op, arg=arg), key=str((name, op, arg)))
 
 
@@ -144,7 +144,7 @@ def case_backtrack(case):
                 return True, f"family={name} checks={combo} B={B} yield#{k}: {d}"
         return False, f"B={B} all {len(out)} yields fine"
 
-    return run_case(fn, replay, signature=lambda f, v: "scheduler_backtrack:" + f["name"].split(":")[-1],
+    return run_case(fn, replay, witness=True, signature=lambda f, v: "scheduler_backtrack:" + f["name"].split(":")[-1],
                     sample=dict(family=name, extra_checks=combo), key=str((name, combo)), max_paths=3000,
                     timeout_ms=10000)
 
@@ -186,7 +186,7 @@ def case_pass(case):
         before, after = run_pass()
         return replay_multiset(before, after)
 
-    return run_case(fn, replay, signature=lambda f, v: "dart_scheduler_pass:" + f["name"].split(":")[-1],
+    return run_case(fn, replay, witness=True, signature=lambda f, v: "dart_scheduler_pass:" + f["name"].split(":")[-1],
                     sample=dict(kind=kind, shape=shape), key=str(case))
 
 
